@@ -194,6 +194,16 @@ def b_hasattr(c):
 @builtin("len")
 def b_len(c):
     x = c.args[0]
+    if isinstance(x, tuple) and len(x) == 3 and x[0] in ("obj", "nt"):
+        if x[0] == "nt":
+            c.ret(C(len(x[2])))
+            return
+        m = c.w.prog.find_method(x[1], "__len__")
+        if m is not None and m[0] == "repo":
+            from .calls import apply_repo
+
+            c.outs.extend(apply_repo(c.w, c.e, m[1], None, (x,), (), c.s))
+            return
     c.need_type(x, SIZED, "TypeError", "len() of a value that may not be sized")
     facts = []
     c.ret(None, *facts)
@@ -1613,6 +1623,14 @@ def apply_method(w, e, mname, recv, args, kwargs, s):
         lit = w.eng.const_literal(recv[1][6:])
         if lit is not None and is_call(lit, ("ext:logging.getLogger", "ext:logging.Logger")):
             ts = frozenset(["obj:logger"])
+        if lit is not None and is_call(lit, "ext:struct.Struct"):
+            recv = lit
+    if is_call(recv, "ext:struct.Struct") and mname == "pack" and recv[2]:
+        # Struct(fmt).pack(*values) == struct.pack(fmt, *values)
+        return apply_ext(w, e, "struct.pack", (recv[2][0],) + tuple(args), kwargs, s)
+    if is_call(recv, "ext:struct.Struct") and mname == "size":
+        c.ret(None, ("type", c.term, frozenset(["int"])))
+        return c.outs
     # library objects
     if ts is not None and ts <= {"obj:argparse"}:
         if mname == "parse_args":
